@@ -395,7 +395,28 @@ def _case(draw):
 
 
 def t_text(shard, nshards, seed, ev, known, n=300):
-    return core.hyp_drive(_case(), check_text, n, seed, ev, known, check_name="text", max_keys=8)
+    fs = core.hyp_drive(_case(), check_text, n, seed, ev, known, check_name="text", max_keys=8)
+    if shard == 0:
+        # every positional single-secret form with every head and every non-empty trailing context once:
+        # the tokens after (and before) the secret are not sensitive and stay
+        samples = {"text": "Zq9xWv7Kp3", "numeric": "8675309", "hex": "abcdef12", "type7": "122A00190102180D3C2E", "md5": "$1$wtHI$0rN7R8PKwC30AsCGA77vy.", "sha512": "$6$" + "a" * 16 + "$" + "b" * 86, "j9": "$9$Be4EhyVb2GDkevYo"}
+        cases = []
+        for f in _POS1:
+            for hi in range(len(f.heads)):
+                for ti, tr in enumerate(f.trails):
+                    if not tr.strip():
+                        continue
+                    v = "cRr9m5bWF4D1P7EsGw53WWzWMOGxcvnY" if "exact" in f.text_kw else samples[f.classes[0]]
+                    s, spans = S.render(f, hi, ti, [v], ("", ""), "", "")
+                    st_ = s.strip()
+                    pre_ = st_[: spans[0][0] - (len(s) - len(s.lstrip()))]
+                    k = len(pre_.split()) - (1 if pre_ and not pre_[-1].isspace() else 0)
+                    if k >= len(st_.split()) or v not in st_.split()[k]:
+                        continue
+                    cases.append({"cfg": {"salt": "s", "B4": 8, "B6": 8, "prefixes": None, "networks": None, "mode": "default"}, "features": [True, False, False, False], "cut": 0, "perm": [0],
+                                  "lines": [{"value": v, "secret": st_, "scrub": False, "strict": {"slot_token": k}, "inner": [], "prefix": [], "lead": "", "trail": "", "eol": "\n"}]})
+        fs = fs + core.enum_drive(cases, check_text, ev, known, "text")
+    return fs
 
 
 @st.composite
